@@ -1,4 +1,5 @@
 import Bandit.Proofs.C01
+import Bandit.Proofs.Scan
 import Bandit.Proofs.Names
 import Bandit.Proofs.Erase
 import Bandit.Gen.Blacklists
@@ -207,6 +208,21 @@ theorem NEG_import_string_prefix :
     simp at this
 
 /-! ### Instances over the generated tables -/
+
+/-- **Source order.** The alias table is filled as the traversal goes: what is reported for the part of a file visited so far does not depend on anything
+that comes later in the traversal — in particular not on an import further down that binds the same name again (the seeded change C01-m12 pre-seeded the
+table from the whole file; the harness's placement generator appends such later bindings).  The events of the whole traversal are those of the prefix,
+followed by those of the rest run in the state the prefix left. -/
+theorem later_code_does_not_change_earlier_findings (checks : List Check) (nm : NosecMap) (lines : List Str) (s : VState)
+    (earlier later₁ later₂ : List Visit) :
+    (scanVisits checks nm lines s (earlier ++ later₁)).take (scanVisits checks nm lines s earlier).length =
+    (scanVisits checks nm lines s (earlier ++ later₂)).take (scanVisits checks nm lines s earlier).length := by
+  rw [scanVisits_append, scanVisits_append]
+  simp
+
+theorem earlier_findings_are_a_prefix (checks : List Check) (nm : NosecMap) (lines : List Str) (s : VState) (earlier later : List Visit) :
+    scanVisits checks nm lines s earlier <+: scanVisits checks nm lines s (earlier ++ later) := by
+  rw [scanVisits_append]; exact List.prefix_append _ _
 
 /-- every generated rule has at least one qualified name and every import rule is also in the Call
 table (so `__import__("m")` / `importlib.import_module("m")` are judged by the import rules) -/
